@@ -293,7 +293,7 @@ func parsePKCS8PrivateKey(der []byte) (Info, error) {
 		if err == nil {
 			info.Attributes = append(info.Attributes, i.Attributes...)
 		}
-	case k.Algorithm.Algorithm.Equal(oid.RSAEncryption):
+	case k.Algorithm.Algorithm.Equal(oid.RSAEncryption), k.Algorithm.Algorithm.Equal(oid.RSASSAPSS):
 		i, err := parsePKCS1PrivateKey(k.PrivateKey)
 		if err == nil {
 			info.Attributes = i.Attributes
